@@ -25,9 +25,15 @@ func (m *MTProto) sendPacket(request tl.Object, expectedTypes ...reflect.Type) (
 		return nil, errors.Wrap(err, "encoding request message")
 	}
 
+	// must write synchroniously, cuz msg_id and seqno must be upper each request: message id is taken
+	// under the same lock as writing, otherwise two goroutines can write in opposite order of their ids
+	m.seqNoMutex.Lock()
+	defer m.seqNoMutex.Unlock()
+	verifPoint("send.locked", 0)
+
 	var (
 		data  messages.Common
-		msgID = utils.GenerateMessageId()
+		msgID = m.nextMessageID()
 	)
 	verifPoint("send.id", msgID)
 
@@ -57,11 +63,6 @@ func (m *MTProto) sendPacket(request tl.Object, expectedTypes ...reflect.Type) (
 		}
 	}
 
-	// must write synchroniously, cuz seqno must be upper each request
-	m.seqNoMutex.Lock()
-	defer m.seqNoMutex.Unlock()
-	verifPoint("send.locked", msgID)
-
 	err = m.transport.WriteMsg(data, MessageRequireToAck(request))
 	if err != nil {
 		return nil, errors.Wrap(err, "sending request")
@@ -76,6 +77,18 @@ func (m *MTProto) sendPacket(request tl.Object, expectedTypes ...reflect.Type) (
 	}
 
 	return resp, nil
+}
+
+// nextMessageID returns id for next message: it's based on current time, but always bigger than previous
+// one, even if clock is too coarse or was moved back. MUST be called under seqNoMutex.
+func (m *MTProto) nextMessageID() int64 {
+	const idStep = 4 // ids of client messages are divisible by 4
+	msgID := utils.GenerateMessageId()
+	if msgID <= m.lastMsgID {
+		msgID = m.lastMsgID + idStep
+	}
+	m.lastMsgID = msgID
+	return msgID
 }
 
 func (m *MTProto) writeRPCResponse(msgID int, data tl.Object) error {
